@@ -16,12 +16,17 @@ pub fn generate(tier: &str, rng: &mut Rng) -> Vec<Spec> {
         for xs in crate::util::all_seqs(alpha, if t { 6 } else { if ty == "f64" { 5 } else { 4 } }) {
             v.push(Spec::new("hampel").with("N", n).with("thr", thr).with("ty", ty).with("xs", join(&xs))); } } } }
     // samples just inside / just outside the pass bound thr*1.4826*MAD (a wrong scale factor or a >= for > shows here)
-    for n in 2..=(if t { 6 } else { 4 }) { for thr in ["1/2", "1", "2", "3"] { for m in 1..=(if t { 60 } else { 30 }) {
+    for n in 2..=(if t { 6 } else { 4 }) { for thr in ["1/2", "1", "2", "3"] { for m in (1..=(if t { 60 } else { 30 })).chain([99_999_999i64, 100_000_007, 12_345_677, 1_000_003]) {
         let tq = Rat::parse(thr); let bound = (Rat::int(m) * Rat::new(14826, 10000) * tq).to_f64().floor() as i64;
         for x in [m + bound, m + bound + 1, m - bound, m - bound - 1] {
             let mut xs = vec![0i64]; xs.extend(std::iter::repeat(m).take(n - 1)); xs.push(x); xs.push(m);
-            v.push(Spec::new("hampel").with("N", n).with("thr", thr).with("ty", if m % 3 == 0 { "f32" } else { "f64" }).with("xs", join(&xs)));
+            v.push(Spec::new("hampel").with("N", n).with("thr", thr).with("ty", if m % 3 == 0 && m < 100_000 { "f32" } else { "f64" }).with("xs", join(&xs)));
         } } } }
+    // wide windows
+    for (i, n) in [64usize, 100, 300].iter().enumerate() { for _ in 0..(if t { 6 } else { 2 }) {
+        let len = n + 40 + i; let mut cur = 0i64;
+        let xs: Vec<i64> = (0..len).map(|_| { match rng.below(9) { 0 => cur + rng.range(50, 400), 1 | 2 | 3 => { cur += rng.range(-2, 2); cur } _ => cur } }).collect();
+        v.push(Spec::new("hampel").with("N", n).with("thr", "2").with("ty", "f64").with("xs", join(&xs))); } }
     for _ in 0..(if t { 4000 } else { 500 }) {
         let n = rng.range(1, 9) as usize; let len = rng.range(2, if t { 80 } else { 30 }) as usize;
         let mut cur = rng.range(-5, 5);
@@ -69,5 +74,5 @@ fn run<const N: usize>(ty: &str, thr: Rat, xs: &[i64], stats: &mut Stats) -> Out
 pub fn exec(s: &Spec, stats: &mut Stats) -> Outcome {
     let n = s.usize("N"); let xs = s.i64s("xs"); let thr = s.rat("thr"); let ty = s.get("ty").to_string();
     stats.bump(format!("N:{}", n)); stats.bump(format!("ty:{}", ty)); stats.bump(format!("thr:{}", thr.show()));
-    crate::dispatch_n!(n, run, (&ty, thr, &xs, stats); 1 2 3 4 5 6 7 8 9)
+    crate::dispatch_n!(n, run, (&ty, thr, &xs, stats); 1 2 3 4 5 6 7 8 9 64 100 300)
 }
